@@ -559,8 +559,58 @@ def r_fold(c):
                     f"`{m.frag(it, 40)}`, which are not visited in ascending order: an "
                     "insertion shifts the later positions, so the new axes end up in the "
                     "wrong places (np.expand_dims(a, (1, 0)))")
-    if n_fold < 1 or n_ins < 1:
-        raise AnalysisError(f"fold/insert anchors vanished (folds={n_fold}, inserts={n_ins})")
+    # working copies: after `work = dict(param)` (list / set likewise) has been
+    # modified, the parameter is a stale snapshot: reading it (or re-binding it)
+    # later in the function takes decisions on, or writes into, the wrong object
+    n_copy = 0
+    for mi, fd in m.all_functions(modules=[x for x in SHAPE_MODULES if x in m.modules]):
+        if m.enclosing_function(fd) is not None:
+            continue
+        params = {a.arg for a in fd.args.args + fd.args.kwonlyargs}
+        for st in fd.body:
+            if not (isinstance(st, (ast.Assign, ast.AnnAssign)) and st.value is not None):
+                continue
+            v = st.value
+            tg = st.targets[0] if isinstance(st, ast.Assign) else st.target
+            if not (isinstance(tg, ast.Name) and isinstance(v, ast.Call)
+                    and isinstance(v.func, ast.Name) and v.func.id in ("dict", "list", "set")
+                    and len(v.args) == 1 and isinstance(v.args[0], ast.Name)
+                    and v.args[0].id in params):
+                continue
+            work, orig = tg.id, v.args[0].id
+            modified = any(
+                (isinstance(x, ast.Subscript) and isinstance(x.ctx, ast.Store)
+                 and ast.unparse(x.value) == work)
+                or (isinstance(x, ast.Call) and isinstance(x.func, ast.Attribute)
+                    and ast.unparse(x.func.value) == work
+                    and x.func.attr in ("add", "append", "update", "setdefault", "pop"))
+                for x in ast.walk(fd))
+            if not modified:
+                continue
+            n_copy += 1
+            # re-binding the parameter name FROM the working copy at the end
+            # (`p = constantdict(p_dict)`) ends the staleness
+            rebinds = [a for a in ast.walk(fd) if isinstance(a, ast.Assign)
+                       and any(isinstance(t, ast.Name) and t.id == orig for t in a.targets)
+                       and a.lineno > st.lineno
+                       and any(isinstance(y, ast.Name) and y.id == work
+                               for y in ast.walk(a.value))
+                       and not any(isinstance(y, ast.Name) and y.id == orig
+                                   for y in ast.walk(a.value))]
+            fresh_from = min((a.lineno for a in rebinds), default=10**9)
+            later = [x for x in ast.walk(fd) if isinstance(x, ast.Name) and x.id == orig
+                     and st.lineno < getattr(x, "lineno", 0) < fresh_from]
+            qn = m.qualname(fd).replace("pytato.", "", 1)
+            c.check(not later, "R03-FOLD", qn, f"{orig}:not-used-after-its-working-copy",
+                    m.loc(mi, later[0] if later else st),
+                    f"`{work} = {v.func.id}({orig})` is a working copy that the function "
+                    f"modifies, but `{orig}` itself is still "
+                    f"{'assigned' if later and isinstance(later[0].ctx, ast.Store) else 'read'} "
+                    "afterwards: the original no longer reflects what was recorded in the "
+                    "copy (e.g. two new reduction axes get the same number)")
+    if n_fold < 1 or n_ins < 1 or n_copy < 2:
+        raise AnalysisError(f"fold/insert/copy anchors vanished (folds={n_fold}, "
+                            f"inserts={n_ins}, working copies={n_copy})")
 
 
 AXIS_PARAMS = ("axis", "axes", "iaxis")
